@@ -233,6 +233,30 @@ T('C01', 'twin-coalesce-next-generator', QC,
 M('C01', 'or-evaluates-all-operands', QC,
   "            if value:\n                return True\n        return r",
   "            if value:\n                r = True\n        return r", ('R-3VL', 'EvalOr'))
+M('C01', 'and-builds-or-node', CO,
+  "        return EvalAnd([self._compile(arg) for arg in node.args])", "        return EvalOr([self._compile(arg) for arg in node.args])",
+  ('R-NODEBUILD', 'Compiler._and'))
+M('C01', 'or-drops-arguments-after-second', CO,
+  "        return EvalOr([self._compile(arg) for arg in node.args])", "        return EvalOr([self._compile(arg) for arg in node.args[:2]])",
+  ('R-NODEBUILD', 'Compiler._or'))
+M('C01', 'and-arguments-reversed', CO,
+  "        return EvalAnd([self._compile(arg) for arg in node.args])", "        return EvalAnd([self._compile(arg) for arg in reversed(node.args)])",
+  ('R-NODEBUILD', 'Compiler._and'))
+M('C01', 'constant-announced-as-object', CO,
+  "        return EvalConstant(node.value)", "        return EvalConstant(node.value, object)",
+  ('R-NODEBUILD', 'Compiler._constant'))
+M('C01', 'asterisk-without-dtype', CO,
+  "        return EvalConstant(None, dtype=types.Asterisk)", "        return EvalConstant(None, dtype=object)",
+  ('R-NODEBUILD', 'Compiler._asterisk'))
+M('C01', 'column-lookup-lowercased', CO,
+  "        column = self.table.columns.get(node.name)\n        if column is not None:", "        column = self.table.columns.get(node.name.lower())\n        if column is not None:",
+  ('R-NODEBUILD', 'Compiler._column'))
+T('C01', 'twin-and-built-in-loop', CO,
+  "        return EvalAnd([self._compile(arg) for arg in node.args])", "        args = []\n        for arg in node.args:\n            args.append(self._compile(arg))\n        return EvalAnd(args)")
+T('C01', 'twin-asterisk-positional-dtype', CO,
+  "        return EvalConstant(None, dtype=types.Asterisk)", "        return EvalConstant(None, types.Asterisk)")
+T('C01', 'twin-column-lookup-by-subscript', CO,
+  "        column = self.table.columns.get(node.name)\n        if column is not None:\n            return column\n", "        name = node.name\n        column = self.table.columns.get(name, None)\n        if column is not None:\n            return column\n")
 # ---------------------------------------------------------------------- C02
 R('C02', 'regress-D1-column-equality', '67e29fa-compare-typed-table-column-accessors-by-the-attrib.diff',
   ('R-EQFAITH', 'GetAttrColumn'))
@@ -295,6 +319,17 @@ M('C02', 'sum-decimal-subtracts', QE,
   "    \"\"\"Calculate the sum of the numerical argument.\"\"\"\n    def update(self, store, context):\n        value = self.operands[0](context)\n        if value is not None:\n            store[self.handle] += value",
   "    \"\"\"Calculate the sum of the numerical argument.\"\"\"\n    def update(self, store, context):\n        value = self.operands[0](context)\n        if value is not None:\n            store[self.handle] -= value",
   ('R-AGGCLASS', 'aggregate:sum(Decimal)'))
+M('C02', 'allocator-handle-not-advanced', QX,
+  "        handle = self.size\n        self.size += 1\n        return handle", "        handle = self.size\n        self.size = 1\n        return handle",
+  ('R-ALLOCATOR', 'Allocator.allocate'))
+M('C02', 'allocator-handle-after-increment', QX,
+  "        handle = self.size\n        self.size += 1\n        return handle", "        self.size += 1\n        handle = self.size\n        return handle",
+  ('R-ALLOCATOR', 'Allocator.create_store'))
+M('C02', 'allocator-store-cached', QX,
+  "        return [None] * self.size\n", "        if getattr(self, '_store', None) is None:\n            self._store = [None] * self.size\n        return self._store\n",
+  ('R-ALLOCATOR', 'Allocator.create_store'))
+T('C02', 'twin-allocator-count-from-list', QX,
+  "        return [None] * self.size\n", "        return [None for _ in range(self.size)]\n")
 # latent only: the three #accounts columns differ in dtype, no two instances collide -> INFO, no violation
 T('C02', 'twin-latent-getitemcolumn-without-slots', SB,
   "class GetItemColumn(query_compile.EvalColumn):\n    __slots__ = ('key',)\n",
@@ -972,3 +1007,37 @@ def _benign_twins():
 
 
 _benign_twins()
+
+
+# ---------------------------------------------------------------------- wave 9 companions
+T('C10', 'twin-column-iter-over-getters', CU,
+  "    def __len__(self):\n        return 7\n", "    def __iter__(self):\n        for getter in self._vars:\n            yield getter(self)\n\n    def __len__(self):\n        return 7\n")
+M('C10', 'column-iter-two-fields', CU,
+  "    def __len__(self):\n        return 7\n", "    def __iter__(self):\n        yield self._name\n        yield self._type\n\n    def __len__(self):\n        return 7\n",
+  ('R-COLUMN7', 'Column.__iter__'))
+T('C15', 'twin-pivot-columns-copied', CO,
+  "            return EvalPivot(query, pivots)", "            return EvalPivot(query, list(pivots))")
+M('C15', 'pivot-columns-sorted', CO,
+  "            return EvalPivot(query, pivots)", "            return EvalPivot(query, sorted(pivots))",
+  ('R-PIVOTFLOW', 'Compiler._compile_select'))
+T('C07', 'twin-execute-query-local-result', QX,
+  "    if isinstance(query, query_compile.EvalQuery):\n        return execute_select(query)\n", "    if isinstance(query, query_compile.EvalQuery):\n        result = execute_select(query)\n        return result\n")
+M('C07', 'execute-query-describes-all-targets', QX,
+  "    if isinstance(query, query_compile.EvalQuery):\n        return execute_select(query)\n", "    if isinstance(query, query_compile.EvalQuery):\n        columns, rows = execute_select(query)\n        return tuple(Column(t.name, t.c_expr.dtype) for t in query.c_targets), rows\n",
+  ('R-QUERYEXEC', 'execute_query'))
+M('C06', 'pivotby-names-only', GR,
+  "    = columns+:(integer | column) ',' columns+:(integer | column)", "    = columns+:column ',' columns+:column",
+  ('R-CLAUSELANG', 'grammar:pivotby'))
+M('C01', 'not-match-case-sensitive', QC,
+  "    return not bool(re.search(y, x, re.IGNORECASE))", "    return not bool(re.search(y, x))",
+  ('R-OPSEM', 'operator:'))
+T('C01', 'twin-match-flags-by-keyword', QC,
+  "    return not bool(re.search(y, x, re.IGNORECASE))", "    return not re.search(y, x, flags=re.IGNORECASE)")
+M('C20', 'import-time-decimal-precision', QC,
+  "import collections\n", "import collections\nimport decimal\ndecimal.DefaultContext.prec = 20\n",
+  ('R-SHARED', '<module>'))
+M('C12', 'safediv-sets-thread-context', QE,
+  "    if y == 0:\n        return ZERO\n    return x / y", "    if y == 0:\n        return ZERO\n    decimal.getcontext().prec = 12\n    return x / y",
+  ('R-SHARED', 'safediv'))
+T('C12', 'twin-safediv-local-context', QE,
+  "    if y == 0:\n        return ZERO\n    return x / y", "    if y == 0:\n        return ZERO\n    with decimal.localcontext() as ctx:\n        ctx.prec = 28\n        return x / y")
